@@ -6,6 +6,21 @@ HERE = os.path.dirname(os.path.dirname(os.path.abspath(__file__)))
 
 # id -> (category, technique, text, note)
 CLAIMED = {
+ "C04": ("other", "CFG with exception edges: reaching-definition comparison of loop exits (status), relational must-dataflow of distance/flux coherence over all normal and exceptional paths, block-row comparison of every assembled system, backward slices of auxiliary outputs, enum dispatch exhaustiveness (ast)",
+         "Decides for every iteration index and fault point at once: the 'converged' status can tell the exception-handler exit of the "
+         "iteration from the stopping-criterion exit; on every return the reported distance is the l1 dissipation of the returned "
+         "flux (facts killed by any in-place update or rebinding, restored by snapshot/restore); all six 3x3 systems carry the same "
+         "mass-balance and constraint rows and the same right-hand side layout; auxiliary outputs derive from the returned solution; "
+         "L1/mobility mode dispatch is exhaustive. Not decided: mass balance to linear-solver precision, Anderson mixing staying in "
+         "the affine space, the pinned pressure value (numerical).",
+         "Trusted: python ast parser; sa/cfg.py exception-edge model (every call/subscript/arithmetic in a try body may raise; BaseException not modelled); repository methods receiving the solution vector are assumed not to mutate it in place."),
+ "C08": ("other", "option-vocabulary extraction + vocabulary-aware definite assignment per (formulation, back-end), setup-before-use typestate per formulation, non-commutative normal forms of the Schur-complement expressions (ast)",
+         "Decides that every documented formulation is accepted and handled under one spelling, that for every accepted (formulation, "
+         "direct/amg/cg) pair linear_solve takes a branch and assigns what it uses, that each branch only reads set-up data its own "
+         "formulation defines, that elimination and back-substitution are D.J^-1.D^T / r_red - D.J^-1.r_flux / J^-1.(r_flux + DT.x) "
+         "with the cached D/DT pair and the J^-1 of the same branch, and that a fresh set-up binds the solver. "
+         "Not decided: equality of flux/pressure/multiplier across formulations up to tolerance; the shape-dependent CSC index surgery; PETSc (ksp) back-end.",
+         "Trusted: python ast parser; sa/vocab.py, sa/algebra.py (non-commutative polynomials; .copy() transparent), sa/state.py summaries."),
  "C16": ("other", "hidden-state analysis (must-write dataflow, J1 value-independence, J2 key-vs-cache guards, J3 save/restore) over solver classes, default-argument instance lint, Anderson reset typestate, dominance of fresh-solver calls (ast, CFG)",
          "Decides for every call history at once the structural ways a result can depend on earlier calls: attributes written by a "
          "solver's own call closure and read before being rewritten (memo under hasattr, coefficients rebound during a cycle), shared "
